@@ -154,7 +154,7 @@ static void ring_add(const char *s) {
   if (g_trace_stderr) { fprintf(stderr, "[%8lu T%d t=%ld.%03ld] %s\n", (unsigned long)internal::steps(), internal::current_tid(), (long)(internal::now_ns() / 1000000), (long)((internal::now_ns() / 1000) % 1000), s); }
 }
 
-void trace(const char *fmt, ...) {
+void trace(const char *fmt, ...) { Ig ig_;
   char buf[512];
   va_list ap; va_start(ap, fmt);
   int n = vsnprintf(buf, sizeof buf, fmt, ap);
@@ -166,7 +166,7 @@ void trace(const char *fmt, ...) {
   ring_add(buf);
 }
 
-void note(const char *fmt, ...) {
+void note(const char *fmt, ...) { Ig ig_;
   char buf[1024];
   va_list ap; va_start(ap, fmt);
   vsnprintf(buf, sizeof buf, fmt, ap);
@@ -182,7 +182,7 @@ std::string fmt(const char *f, ...) {
   return b;
 }
 
-void violation(const std::string &cls, const std::string &detail) {
+void violation(const std::string &cls, const std::string &detail) { Ig ig_;
   ensure_rec();
   if (g_viol->size() < 20) g_viol->push_back(Violation{cls, detail});
   char buf[1200];
@@ -192,14 +192,14 @@ void violation(const std::string &cls, const std::string &detail) {
 }
 size_t violation_count() { ensure_rec(); return g_viol->size(); }
 
-void probe(const char *name, long n) { ensure_rec(); (*g_probes)[name] += n; }
+void probe(const char *name, long n) { Ig ig_; ensure_rec(); (*g_probes)[name] += n; }
 void relevant(long n) { g_relevant += n; }
-void interleave_mix(uint64_t v) { g_ifp = fnv1a(&v, sizeof v, g_ifp); }
+void interleave_mix(uint64_t v) { Ig ig_; g_ifp = fnv1a(&v, sizeof v, g_ifp); }
 const char *run_dir() { return g_run_dir.c_str(); }
 const char *tier() { return g_tier.c_str(); }
 
 namespace internal {
-void count_fault(const char *name) { ensure_rec(); (*g_faults)[name] += 1; }
+void count_fault(const char *name) { Ig ig_; ensure_rec(); (*g_faults)[name] += 1; }
 
 static std::string jesc(const std::string &s) {
   std::string o;
@@ -227,7 +227,7 @@ static void write_all(int fd, const std::string &s) {
   }
 }
 
-void emit_result(const char *outcome) {
+void emit_result(const char *outcome) { Ig ig_;
   ensure_rec();
   std::ostringstream os;
   char hb[32];
